@@ -16,11 +16,13 @@ import (
 	"os"
 	"os/exec"
 	"path/filepath"
+	"regexp"
 	"runtime"
 	"sort"
 	"strconv"
 	"strings"
 	"sync"
+	"sync/atomic"
 	"time"
 )
 
@@ -77,6 +79,9 @@ var (
 )
 
 var raceDir string
+
+var recycleRe = regexp.MustCompile(`RECYCLE next=(\d+)`)
+var recycled atomic.Int64
 
 func die(code int, format string, a ...any) {
 	fmt.Fprintf(os.Stderr, "runner: "+format+"\n", a...)
@@ -255,24 +260,48 @@ func main() {
 		wg.Add(1)
 		go func(i int) {
 			defer wg.Done()
-			env := []string{
-				"VERIF_PROP=" + *propID,
-				"VERIF_TIER=" + *tier,
-				fmt.Sprintf("VERIF_SEED_START=%d", start+uint64(i)),
-				fmt.Sprintf("VERIF_SEED_STRIDE=%d", W),
-				"VERIF_SEED_COUNT=100000000",
-				fmt.Sprintf("VERIF_DEADLINE_MS=%d", B.Milliseconds()),
-				"VERIF_OUT=" + filepath.Join(tmp, fmt.Sprintf("w%d.jsonl", i)),
-				fmt.Sprintf("VERIF_GOMAXPROCS=%d", []int{1, 1, 1, 1, 1, 1, 2, 4}[i%8]),
+			// a worker that has grown large (goroutines the system under test never ends - tickers of plugins
+			// without a Close - pin the heap of their run) announces the next seed and exits; it is replaced
+			next := start + uint64(i)
+			until := time.Now().Add(B)
+			for k := 0; ; k++ {
+				left := time.Until(until)
+				if left <= 0 && k > 0 {
+					break
+				}
+				if left < 0 {
+					left = 0
+				}
+				env := []string{
+					"VERIF_PROP=" + *propID,
+					"VERIF_TIER=" + *tier,
+					fmt.Sprintf("VERIF_SEED_START=%d", next),
+					fmt.Sprintf("VERIF_SEED_STRIDE=%d", W),
+					"VERIF_SEED_COUNT=100000000",
+					fmt.Sprintf("VERIF_DEADLINE_MS=%d", left.Milliseconds()),
+					"VERIF_OUT=" + filepath.Join(tmp, fmt.Sprintf("w%d.%d.jsonl", i, k)),
+					fmt.Sprintf("VERIF_GOMAXPROCS=%d", []int{1, 1, 1, 1, 1, 1, 2, 4}[i%8]),
+				}
+				outs[i], errs[i] = runWorker(env, left+3*time.Minute)
+				if errs[i] != nil {
+					break
+				}
+				m := recycleRe.FindStringSubmatch(outs[i])
+				if m == nil {
+					break
+				}
+				next, _ = strconv.ParseUint(m[1], 10, 64)
+				recycled.Add(1)
 			}
-			outs[i], errs[i] = runWorker(env, B+3*time.Minute)
 		}(i)
 	}
 	wg.Wait()
 	var all []report
 	for i := 0; i < W; i++ {
-		rs := readReports(filepath.Join(tmp, fmt.Sprintf("w%d.jsonl", i)))
-		all = append(all, rs...)
+		files, _ := filepath.Glob(filepath.Join(tmp, fmt.Sprintf("w%d.*.jsonl", i)))
+		for _, f := range files {
+			all = append(all, readReports(f)...)
+		}
 		if errs[i] != nil {
 			tail := outs[i]
 			if len(tail) > 4000 {
@@ -388,7 +417,11 @@ func main() {
 	sort.Strings(classes)
 
 	// ---- minimise + confirm new violations (at most 4 classes per invocation) ----
-	os.MkdirAll(filepath.Join(verif, "replays"), 0o755)
+	replayDir := filepath.Join(verif, "replays")
+	if d := os.Getenv("VERIF_EVIDENCE_DIR"); d != "" {
+		replayDir = filepath.Join(d, "replays") // development runs against a scratch tree keep /verif clean
+	}
+	os.MkdirAll(replayDir, 0o755)
 	type confirmed struct{ class, path string }
 	var viols []confirmed
 	nondet := false
@@ -407,7 +440,7 @@ func main() {
 			if k >= 5 {
 				break
 			}
-			path := filepath.Join(verif, "replays", fmt.Sprintf("%s-%s-%d.json", *propID, safe, h.rep.Seed))
+			path := filepath.Join(replayDir, fmt.Sprintf("%s-%s-%d.json", *propID, safe, h.rep.Seed))
 			env := []string{"VERIF_PROP=" + *propID, "VERIF_TIER=" + *tier, fmt.Sprintf("VERIF_MINIMISE=%d", h.rep.Seed), "VERIF_CLASS=" + c, "VERIF_REPLAY_OUT=" + path}
 			out, err := runWorker(env, 15*time.Minute)
 			if err != nil {
@@ -542,7 +575,7 @@ func writeEvidence(all []report, t0 time.Time, baseSeed, start uint64, W int, B 
 		"known_findings_seen":      known,
 		// small outcome counters (they fluctuate with which seeds fit into the budget) are kept apart from
 		// the measures of work above
-		"outcomes":           map[string]any{"inconclusive_runs": inconclusive, "runs_with_new_violation": nViolRuns},
+		"outcomes":           map[string]any{"inconclusive_runs": inconclusive, "runs_with_new_violation": nViolRuns, "worker_processes_replaced": recycled.Load()},
 		"real_components":    realComponents,
 		"stubbed_components": stubComponents,
 	}
